@@ -31,8 +31,23 @@ M = [
  ('vecbatch_keep_empty','eyeball-im-util/src/vector/ops.rs','        let res: Vec<_> = self.into_iter().filter_map(f).collect();\n\n        if res.is_empty() {\n            None','        let res: Vec<_> = self.into_iter().filter_map(f).collect();\n\n        if false {\n            None',['C13']),
  ('head_limit_noop_ctx','eyeball-im-util/src/vector/head.rs','            while let Poll::Ready(Some(next_limit)) = self.limit_stream.as_mut().poll_next(cx) {','            while let Poll::Ready(Some(next_limit)) = self.limit_stream.as_mut().poll_next(&mut task::Context::from_waker(&noop_waker())) {',['C14']),
  ('into_parts_skip_revert','eyeball-im-util/src/vector/skip.rs','            None => Vector::new(),\n        };\n        (values, self)','            None => self.buffered_vector.clone(),\n        };\n        (values, self)',['C12']),
+ ('obs_poll_le','eyeball/src/state.rs','} else if *observed_version < metadata.version {','} else if *observed_version <= metadata.version && metadata.version > 3 || *observed_version < metadata.version {',['C01']),
+ ('obs_subscribe_version0','eyeball/src/unique.rs','        Subscriber::new(Shared::get_read_lock(&this.state), this.state.version())','        Subscriber::new(Shared::get_read_lock(&this.state), this.state.version().saturating_sub((this.state.version() > 2) as u64))',['C01']),
+ ('obs_set_if_not_eq_inverted','eyeball/src/state.rs','        if self.value != value {\n            Some(self.set(value))','        if !(self.value != value) {\n            Some(self.set(value))',['C01']),
+ ('obs_next_now_no_store','eyeball/src/subscriber.rs','        let lock = self.state.lock();\n        self.observed_version = lock.version();\n        lock.get().clone()','        let lock = self.state.lock();\n        lock.get().clone()',['C01']),
+ ('obs_update_if_always','eyeball/src/state.rs','        if f(&mut self.value) {\n            self.incr_version_and_wake();','        if f(&mut self.value) || true {\n            self.incr_version_and_wake();',['C01']),
+ ('obs_hash_uses_eq','eyeball/src/state.rs','        if hash(&self.value) != hash(&value) {','        if self.value_differs(&value) {',['C01']),
+ ('obs_wake_only_last','eyeball/src/state.rs','        wake(metadata.wakers.drain(..));','        if let Some(w) = metadata.wakers.pop() { w.wake(); }\n        metadata.wakers.clear();',['C02']),
+ ('obs_close_no_wake','eyeball/src/state.rs','        wake(mem::take(&mut metadata.wakers));','        drop(mem::take(&mut metadata.wakers));',['C02','C03']),
+ ('obs_unique_drop_no_close','eyeball/src/unique.rs','    fn drop(&mut self) {\n        self.state.close();','    fn drop(&mut self) {\n        if false { self.state.close(); }',['C03']),
+ ('obs_into_shared_closes','eyeball/src/unique.rs','        let state = unsafe { ptr::read(&this.state) };\n        mem::forget(this);','        this.state.close();\n        let state = unsafe { ptr::read(&this.state) };\n        mem::forget(this);',['C03']),
+ ('obs_clone_fresh_counter','eyeball/src/shared.rs','        Self { state: self.state.clone(), _num_clones: self._num_clones.clone() }\n    }\n}\n\nimpl<T, L: Lock> fmt::Debug for SharedObservable','        Self { state: self.state.clone(), _num_clones: Arc::new(()) }\n    }\n}\n\nimpl<T, L: Lock> fmt::Debug for SharedObservable',['C03','C19']),
+ ('obs_async_sub_version0','eyeball/src/subscriber/async_lock.rs','        Self { state: AsyncSubscriberState { inner, get_lock }, observed_version: version }','        Self { state: AsyncSubscriberState { inner, get_lock }, observed_version: version.saturating_sub(1) }',['C16']),
+ ('obs_async_clone_reset_keeps','eyeball/src/subscriber.rs','        Self { state: self.state.clone(), observed_version: 0 }','        Self { state: self.state.clone(), observed_version: self.observed_version / 2 }',['C01','C16']),
+ ('obs_weak_count_strong','eyeball/src/shared.rs','        Arc::weak_count(&self.state)','        Arc::weak_count(&self._num_clones)',['C19']),
 ]
-EXTRA = {'head_limit_noop_ctx': ('eyeball-im-util/src/vector/head.rs','use pin_project_lite::pin_project;','use pin_project_lite::pin_project;\nfn noop_waker() -> std::task::Waker { use std::task::{RawWaker, RawWakerVTable, Waker}; fn c(_: *const ()) -> RawWaker { RawWaker::new(std::ptr::null(), &VT) } fn n(_: *const ()) {} static VT: RawWakerVTable = RawWakerVTable::new(c, n, n, n); unsafe { Waker::from_raw(RawWaker::new(std::ptr::null(), &VT)) } }')}
+EXTRA = {'obs_hash_uses_eq': ('eyeball/src/state.rs','impl<T> ObservableState<T> {\n    pub(crate) fn new','impl<T: Hash> ObservableState<T> {\n    fn value_differs(&self, v: &T) -> bool { let (a, b) = (hash(&self.value), hash(v)); a != b && a.wrapping_add(1) != b.wrapping_mul(1) || a != b }\n}\nimpl<T> ObservableState<T> {\n    pub(crate) fn new'),
+ 'head_limit_noop_ctx': ('eyeball-im-util/src/vector/head.rs','use pin_project_lite::pin_project;','use pin_project_lite::pin_project;\nfn noop_waker() -> std::task::Waker { use std::task::{RawWaker, RawWakerVTable, Waker}; fn c(_: *const ()) -> RawWaker { RawWaker::new(std::ptr::null(), &VT) } fn n(_: *const ()) {} static VT: RawWakerVTable = RawWakerVTable::new(c, n, n, n); unsafe { Waker::from_raw(RawWaker::new(std::ptr::null(), &VT)) } }')}
 
 def sh(cmd, **kw): return subprocess.run(cmd, shell=True, capture_output=True, text=True, **kw)
 def main():
@@ -50,8 +65,9 @@ def main():
             if name in EXTRA:
                 ef, eo, en = EXTRA[name]; p2=os.path.join(REPO,ef); s2=open(p2).read(); open(p2,'w').write(s2.replace(eo,en,1))
             open(f'/verif/probes/{name}.diff','w').write(sh('git -C /repo diff').stdout)
-            t = sh('cd /repo && cargo test --workspace --no-fail-fast --offline 2>&1 | grep -E "^test result|error(\\[|:)"').stdout
-            tests_ok = 'FAILED' not in t and 'error' not in t
+            t = sh('cd /repo && timeout -k 5 180 cargo test --workspace --no-fail-fast --offline 2>&1 | grep -E "^test result|error(\\[|:)"; echo "rc=${PIPESTATUS[0]}"', executable='/bin/bash').stdout
+            tests_ok = 'FAILED' not in t and 'error' not in t and 'rc=0' in t
+            sh('pkill -9 -f /repo/target/debug/deps/')
             line = []
             for p in props:
                 r = sh(f'cd /verif && VERIF_DIR=/tmp/vt_probe ./check {p} quick')
